@@ -147,6 +147,26 @@ impl Config {
                 }
             }
         }
+        #[cfg(unix)]
+        if args.file == "-" && args.output != "-" {
+            // `svgdx -o f.svg < f.svg`: standard input may be the output file too. (The
+            // whole input is read before the output is written, so the transform itself
+            // works - and then replaces its own source.)
+            use std::os::fd::AsFd;
+            use std::os::unix::fs::MetadataExt;
+            let stdin_meta = std::io::stdin()
+                .as_fd()
+                .try_clone_to_owned()
+                .map(std::fs::File::from)
+                .and_then(|f| f.metadata());
+            if let (Ok(in_meta), Ok(out_meta)) = (stdin_meta, Path::new(&args.output).metadata()) {
+                if in_meta.is_file() && in_meta.dev() == out_meta.dev() && in_meta.ino() == out_meta.ino() {
+                    return Err(SvgdxError::from(
+                        "Output path must not refer to the same file as the input file.",
+                    ));
+                }
+            }
+        }
         Ok(Self {
             input_path: args.file,
             output_path: args.output,
